@@ -20,6 +20,16 @@ def op(name):
 
 
 def run_line(line: str) -> str:
+    if line.startswith("after "):
+        # process history: every line is evaluated, in order, in this process; the answer is the last one's
+        parts = line[6:].split(" ;; ")
+        for pre in parts[:-1]:
+            try:
+                run_line(pre)
+            except BaseException as e:  # noqa: BLE001
+                if isinstance(e, (KeyboardInterrupt, SystemExit, GeneratorExit)) or type(e).__name__ in ("_TO", "_Timeout"):
+                    raise
+        return run_line(parts[-1])
     t = Toks(line)
     name = t.next()
     if name not in IMPL and UNAVAILABLE:
